@@ -271,7 +271,7 @@ U_C10_Desc(zz) == {DeclP([C0 |-> Class(DefaultOpts, <<AutoE(U1("a"), EC(2)), MvF
                           {0, 1, 2, 3}, 5, {0})}
 \* callables of Move targets that read the keywords `innermost-pkt-pos` and `root`, one level down and below an optional
 U_C10_Kw(zz) == {DeclP([C0 |-> Class(DefaultOpts, <<U1("h"), U1("w"), wrap, U1("t")>>),
-                        C1 |-> Class(DefaultOpts, <<U1("a"), MvField(U1("b"), mv), U1("c")>>)], {0, 1, 2}, 6, {0}) :
+                        C1 |-> Class(DefaultOpts, <<U1("a"), MvField(U1("b"), mv), U1("c")>>)], {0, 1, 2}, 7, {0}) :
                    wrap \in {RefF("s", "C1"), OptF("s", RefF("e", "C1"), SzField("w"))},
                    mv \in {[kind |-> "at", arg |-> Lam(EBin("add", EIPos, EC(2))), ref |-> "begins"],
                            [kind |-> "at", arg |-> Lam(EBin("add", ERoot("w"), EC(1))), ref |-> "innermost-pkt"],
